@@ -21,7 +21,7 @@ def run_one(name: str):
         if r.returncode != 0:
             return name, [("-", -1, "patch does not apply")]
         env = dict(os.environ, PYTHONPATH=SNAP)
-        only = json.loads(os.environ.get("TWIN_ONLY", "{}"))  # {"C01": "R01.15,R01.16", ...}: re-check just these rules (after adding rules)
+        only = json.loads(os.environ.get("TWIN_ONLY") or "{}")  # {"C01": "R01.15,R01.16", ...}: re-check just these rules (after adding rules)
         for p in (sorted(only) if only else PROPS):
             extra = ["--rule", only[p]] if only else []
             q = subprocess.run(["/venv/bin/python", "-m", "sa.run", "--property", p, "--repo", tmp, "--no-write", *extra], cwd=SNAP, capture_output=True, text=True, env=env)
